@@ -664,6 +664,16 @@ func (e *Env) call(x *Expr) TV {
 		return scInt(App(SInt, "str.indexof", e.term(args[0]), e.term(args[1]), IntLit(0)))
 	case "substr":
 		return scStr(App(SStr, "str.substr", e.term(args[0]), e.term(args[1]), e.term(args[2])))
+	case "join":
+		// strings.Join(s, sep): the same uninterpreted function the engine uses for the library call
+		tv := e.eval(args[0])
+		sv, ok := tv.V.(SliceV)
+		if !ok {
+			sfail("join() needs a []string")
+		}
+		reg.declare("sf_join", "(declare-fun sf_join ((Array Int String) Int String) String)")
+		row := e.rowTerm("E|string|", []Sort{SInt, SInt}, SStr, sv.Arr)
+		return scStr(Term{fmt.Sprintf("(sf_join %s %s %s)", row, sv.Len.S, e.term(args[1]).S), SStr})
 	case "called":
 		if args[0].Op != "anchor" {
 			sfail("called(@anchor)")
